@@ -863,6 +863,30 @@ theorem lua_agrees_partial (name : Bytes) (args : List Bytes) (c : Cmd)
                     rw [parse_of_find hm, run_of (arity_sub hchk.1 _ har), body_ok_sub hchk.2 args c hbody]
                     rfl
 
+/-- `lua_agrees_partial` is an equality of whole commands, i.e. of EVERY field (key, value, ex, px,
+    exat, pxat, nx, xx, get, keepttl for SET).  Spelled out for the field no reply shows: a SET the
+    translator accepts never keeps the old TTL (`keepttl = false`, `exat = pxat = None`).  The
+    translator's `Command` is not observable in the code, so this is tied to /repo by the
+    twin-executor effect oracle (keys primed with TTLs, remaining TTLs compared). -/
+theorem lua_set_never_keepttl (name k v : Bytes) (opts : List Bytes) (c : Cmd)
+    (hn : kw name = s2b "SET") (h : parseLua (name :: k :: v :: opts) = .ok c) :
+    c.ctor = s2b "Set" ∧ ∃ key val ex px nx xx get,
+      c.toks = [key, val, ex, px, .none, .none, .b nx, .b xx, .b get, .b false] := by
+  simp only [parseLua, hn, find_lua_set, parseWith] at h
+  obtain ⟨_, hb⟩ := run_ok h
+  have hb' : Bodies.luaSet (k :: v :: opts) = .ok c := hb
+  simp only [Bodies.luaSet, bind, Except.bind] at hb'
+  cases hs : scanOpts Bodies.luaSetOpts (fun w => some (.fmt .luaUnknownSet w)) opts with
+  | error e => rw [hs] at hb'; simp at hb'
+  | ok s =>
+    rw [hs] at hb'
+    simp only [Except.ok.injEq] at hb'
+    subst hb'
+    exact ⟨rfl, _, _, _, _, _, _, _, rfl⟩
+
+example : parseLua [s2b "SET", s2b "k", s2b "v2"] =
+    .ok ⟨s2b "Set", [.s (s2b "k"), .d (s2b "v2"), .none, .none, .none, .none, .b false, .b false, .b false, .b false]⟩ := by decide
+
 /-- non-vacuity: accepted by the translator, same command -/
 example : parseLua [s2b "hset", s2b "h", s2b "f", s2b "1"] = parseCmd [s2b "hset", s2b "h", s2b "f", s2b "1"] ∧
     (parseLua [s2b "hset", s2b "h", s2b "f", s2b "1"]).isOk = true := by decide
